@@ -7,6 +7,6 @@ CONSTANTS
   Reqs = {"b", "u"}
   Deltas = {"cpu+", "mem+", "unbind", "huge"}
   Includes <- IncludesQuick
-  Modes = {"fault", "crash"}
+  Modes = {"fault", "crash", "cancel"}
 CONSTRAINT Emit
 CHECK_DEADLOCK FALSE
